@@ -74,7 +74,8 @@ def check_one(case, rec):
             vv = call("varpc_n", pyrepseq.varpc_n, fa)
             e_var += pr * Fraction(vv)
         if user:
-            ia = np.array(counts, dtype=np.int64)
+            fits = [d for d in (np.int8, np.uint8, np.int16, np.int32, np.int64) if N <= np.iinfo(d).max]
+            ia = np.array(counts, dtype=fits[(sum(counts[:1]) + len(fits) + K) % len(fits)])
             nz = ia[ia > 0]
             fv = float(call("pc_n", pyrepseq.pc_n, ia))
             e_pc_float += pr * Fraction(fv)
